@@ -50,6 +50,7 @@ func replay(args []string) {
 	fs := flag.NewFlagSet("replay", flag.ExitOnError)
 	in := fs.String("script", "", "script file")
 	out := fs.String("out", "", "trace file to write")
+	verbose := fs.Bool("v", false, "print one diagnostic line with the ABCI log per TX / CHECK to stderr")
 	fs.Parse(args)
 	if *in == "" || *out == "" {
 		die(2, "replay: -script and -out are required")
@@ -66,6 +67,9 @@ func replay(args []string) {
 	code := func() int {
 		defer os.RemoveAll(home)
 		ip := &real.Interp{Home: home}
+		if *verbose {
+			ip.Log = os.Stderr
+		}
 		var trace []string
 		sc := bufio.NewScanner(f)
 		sc.Buffer(make([]byte, 1<<20), 1<<26)
